@@ -745,6 +745,10 @@ def _positive_examples(rep):
     }
     from . import lazy_rule as _lz
     _lz.positive_examples()
+    from . import memo_rule as _mrp
+    byp = {r_["fi"].name for r_ in _mrp.setter_bypasses(pp)}
+    if byp != {"scaled_bypassing"}:
+        raise AnalysisError(f"positive example: the setter-bypass pattern flagged {sorted(byp)}, expected ['scaled_bypassing']")
     sh = [x for x in scratch.refutations if x["rule"] == "PU-SHARE"]
     if not any("SharesDefaults" in x["function"] for x in sh):
         raise AnalysisError("positive example: PU-SHARE did not flag SharesDefaults.__init__")
@@ -813,6 +817,9 @@ def run(project: Project, rep, tier: str):
                         construct=f"{r_['fi'].qualname}: class-level cache {r_['table']}")
         else:
             rep.discharged("PU-CACHE", r_["fi"], r_["node"], r_["why"])
+    for r_ in _mr.setter_bypasses(project):
+        rep.refuted("PU-CACHE", r_["fi"], r_["node"], r_["why"] + " — the result depends on what was asked of the source object before",
+                    construct=f"{r_['fi'].qualname}: setter of {r_['prop']} bypassed")
     _, rng_sites = check_pu_rng(project, oa, rep)
     rep.floor("PU-RNG", 1)
     check_pu_share(project, oa, rep, eps)
